@@ -33,6 +33,10 @@ impl VirtualTimer {
 
 impl Timer for VirtualTimer {
     fn timestamp(&self) -> u64 {
+        // the clock is read inside several windows of the store (between the
+        // look-up and the insert of a set, at the start of the expiry test):
+        // a gate point for threads that are bound to a controller
+        crate::gate::pt("timer.read");
         self.0.load(Ordering::SeqCst)
     }
 }
